@@ -13,10 +13,10 @@ func init() {
 		ID:    "C17",
 		Level: "exploration",
 		Rule: "case = source sketch (either variant, any non-collapsing store, both signs, zeros, unit or dyadic weights, values well inside both mappings' ranges after scaling) converted with ChangeMapping to a target mapping over all 9 ordered kind pairs x alpha pairs (coarser, finer, equal) into any store kind, scale in [1e-3,1e3] incl. 1, powers of two, random and bin-aligned factors LowerBound'(j)/LowerBound(i); " +
-			"oracle: result carries the requested mapping; source observation unchanged; zero weight bitwise kept; |W'-W| <= 1e-10 W; no bin of weight <= 0 and Min/MaxIndex are the extreme positive bins; per side and for every target-bin boundary t the interval transport (Hall) condition: weight of result bins entirely below t lies between the weight of source bins ending at or below t and the weight of source bins starting below t (up to slivers); " +
+			"in 40% of the cases nothing is asked of the source before the conversion (its expected observation comes from a twin built by the same calls); oracle: result carries the requested mapping; source observation unchanged; zero weight bitwise kept; |W'-W| <= 1e-10 W; no bin of weight <= 0 and Min/MaxIndex are the extreme positive bins; per side and for every target-bin boundary t the interval transport (Hall) condition: weight of result bins entirely below t lies between the weight of source bins ending at or below t and the weight of source bins starting below t (up to slivers); " +
 			"every quantile y satisfies y/(s*Value(i)) in [(1-a2)/(1+a1),(1+a2)/(1-a1)] for a source bin i whose cumulative interval is within 1 of q(W-1); identity conversion gives an equal, independent copy; exact statistics: count unchanged, min/max = fl(extreme*s), sum within the rounding bound. Non-trivial = bin-aligned factor, different kinds, or both signs; distinct = hash of (mappings, scale, items).",
 		Cases:     core.Scale(20000, 500000),
-		Mandatory: []string{"oracle.transport_checks", "oracle.quantile_checks", "oracle.source_unchanged", "oracle.nonpositive_bin_checks", "scale.bin_aligned", "scale.one", "identity.cases", "exact.rescale_checks", "pair.log->cub", "pair.cub->lin", "pair.lin->log", "target.collapsing", "source.reweighted_before_conversion"},
+		Mandatory: []string{"oracle.transport_checks", "oracle.quantile_checks", "oracle.source_unchanged", "oracle.nonpositive_bin_checks", "scale.bin_aligned", "scale.one", "identity.cases", "exact.rescale_checks", "pair.log->cub", "pair.cub->lin", "pair.lin->log", "target.collapsing", "source.reweighted_before_conversion", "source.unread_before_conversion"},
 		Assumptions: []string{
 			"boundary classification tolerance 1e-9 relative, weight slivers 1e-9*W: a defect moving less than that is invisible",
 			"values within a factor gamma^2*4 of either mapping's range ends are not sent (the property says 'well inside')",
@@ -113,11 +113,25 @@ func runC17(c *core.Ctx) {
 		items = append(items, mon.Item{V: v, W: w})
 	}
 	src := mon.NewSketch(exact, m1.M, srcSpec)
+	// unread source: nothing is asked of the source before it is converted (queries reorganise stores); what it
+	// must look like is then taken from a twin built by the same calls
+	unread := r.P(0.4)
+	twin := mon.NewSketch(exact, m1.M, srcSpec)
 	md := mon.NewSketchModel(m1, srcSpec)
 	for _, it := range items {
 		c.SigF(it.V)
 		c.SigF(it.W)
-		if err := src.I().AddWithCount(it.V, it.W); err != nil {
+		var err error
+		if it.W == 1 && unread {
+			err = src.I().Add(it.V)
+			twin.I().Add(it.V)
+		} else {
+			err = src.I().AddWithCount(it.V, it.W)
+			if unread {
+				twin.I().AddWithCount(it.V, it.W)
+			}
+		}
+		if err != nil {
 			c.Failf("AddWithCount.rejected", "AddWithCount(%v,%v): %v", it.V, it.W, err)
 			return
 		}
@@ -130,6 +144,9 @@ func runC17(c *core.Ctx) {
 		if err := src.I().Reweight(f); err != nil {
 			c.Failf("Reweight.error", "Reweight(%v): %v", f, err)
 			return
+		}
+		if unread {
+			twin.I().Reweight(f)
 		}
 		md.Scale(f)
 		for i := range items {
@@ -186,10 +203,21 @@ func runC17(c *core.Ctx) {
 		c.Logf("items: %v", truncItems(items, 40))
 	}
 
-	before := mon.Observe(src, nil)
+	var before *mon.Obs
+	if !unread {
+		before = mon.Observe(src, nil)
+	}
 	var res mon.Sketch
 	if c.Guard("ChangeMapping", func() { res = src.ChangeMapping(m2.M, dstSpec, scale) }) {
 		return
+	}
+	if unread {
+		c.Count("source.unread_before_conversion", 1)
+		if identity {
+			// the result is read before the source is
+			mon.Observe(res, nil)
+		}
+		before = mon.Observe(twin, nil)
 	}
 	c.Count("oracle.source_unchanged", 1)
 	if d := before.Diff(mon.Observe(src, nil)); d != "" {
